@@ -1,32 +1,44 @@
-//! Watchdog for "every operation returns": each worker publishes the case it is
-//! running; a monitor thread reports a case that has been running too long as
-//! a C01 violation (the statement says "returns") and ends the process.
+//! Watchdog for "every operation returns". Every call into the library goes through
+//! `subject::guard`, which stamps the calling thread's slot with a coarse tick on entry and
+//! clears it on return (two relaxed stores). A monitor thread advances the tick every 100 ms
+//! and reports a call that has been inside the library for more than the limit as a violation
+//! ("does not return") of the property being checked, then ends the process: a hang is a
+//! verdict about the subject, not a machinery problem. Checks may add a description of the
+//! case they are running (`enter` / `context`) so that the report names the input.
 
 use std::sync::atomic::{AtomicU64, Ordering};
 use std::sync::{Arc, Mutex, OnceLock};
-use std::time::{Duration, Instant};
+use std::time::Duration;
 
 pub struct Slot {
-    start_ms: AtomicU64,
+    call_tick: AtomicU64,
     case: Mutex<(String, Vec<u32>)>,
 }
 
 static SLOTS: OnceLock<Mutex<Vec<Arc<Slot>>>> = OnceLock::new();
-static EPOCH: OnceLock<Instant> = OnceLock::new();
+static TICK: AtomicU64 = AtomicU64::new(1);
 
 thread_local! {
     static MY: Arc<Slot> = {
-        let s = Arc::new(Slot { start_ms: AtomicU64::new(0), case: Mutex::new((String::new(), Vec::new())) });
+        let s = Arc::new(Slot { call_tick: AtomicU64::new(0), case: Mutex::new((String::new(), Vec::new())) });
         SLOTS.get_or_init(|| Mutex::new(Vec::new())).lock().unwrap().push(s.clone());
         s
     };
 }
 
-fn now_ms() -> u64 {
-    EPOCH.get_or_init(Instant::now).elapsed().as_millis() as u64 + 1
+/// entering the library (called by `subject::guard`)
+#[inline]
+pub fn call_enter() {
+    MY.with(|s| s.call_tick.store(TICK.load(Ordering::Relaxed), Ordering::Relaxed));
 }
 
-/// mark the start of a case (what = a short static label, cps = the input)
+/// the library call returned (or unwound)
+#[inline]
+pub fn call_leave() {
+    MY.with(|s| s.call_tick.store(0, Ordering::Relaxed));
+}
+
+/// describe the case the calling thread is working on (label + input as code points)
 pub fn enter(what: &str, cps: &[char]) {
     MY.with(|s| {
         if let Ok(mut c) = s.case.lock() {
@@ -35,26 +47,31 @@ pub fn enter(what: &str, cps: &[char]) {
             c.1.clear();
             c.1.extend(cps.iter().map(|x| *x as u32));
         }
-        s.start_ms.store(now_ms(), Ordering::Release);
     });
 }
 
-pub fn leave() {
-    MY.with(|s| s.start_ms.store(0, Ordering::Release));
+/// describe the case with free text only
+pub fn context(what: &str) {
+    enter(what, &[]);
 }
 
-/// start the monitor; `on_stuck(label, cps, seconds)` must not return
+pub fn leave() {}
+
+/// start the monitor; `on_stuck(label, cps, seconds)` is expected not to return
 pub fn start_monitor<F: Fn(&str, &[u32], u64) + Send + 'static>(limit: Duration, on_stuck: F) {
-    let _ = now_ms();
+    let limit_ticks = (limit.as_millis() / 100).max(1) as u64;
     std::thread::spawn(move || loop {
-        std::thread::sleep(Duration::from_millis(500));
-        let now = now_ms();
+        std::thread::sleep(Duration::from_millis(100));
+        let now = TICK.fetch_add(1, Ordering::Relaxed) + 1;
+        if now % 5 != 0 {
+            continue;
+        }
         let slots: Vec<Arc<Slot>> = SLOTS.get_or_init(|| Mutex::new(Vec::new())).lock().unwrap().clone();
         for s in slots {
-            let st = s.start_ms.load(Ordering::Acquire);
-            if st != 0 && now.saturating_sub(st) > limit.as_millis() as u64 {
+            let st = s.call_tick.load(Ordering::Relaxed);
+            if st != 0 && now.saturating_sub(st) > limit_ticks {
                 let c = s.case.lock().map(|c| c.clone()).unwrap_or_default();
-                on_stuck(&c.0, &c.1, (now - st) / 1000);
+                on_stuck(&c.0, &c.1, (now - st) / 10);
             }
         }
     });
